@@ -90,6 +90,8 @@ class Module:
             self.tree = ast.parse(source, filename=relpath)
         except SyntaxError as exc:  # pragma: no cover
             raise AnalysisError(f"cannot parse {relpath}: {exc}") from exc
+        from .localnames import normalise_module
+        self.alpha_normalised = normalise_module(relpath, self.tree)
         self.is_pkg = relpath.endswith("__init__.py")
         self.functions: Dict[str, FuncInfo] = {}
         self.classes: Dict[str, ClassInfo] = {}
